@@ -236,3 +236,70 @@ def run(ctx, F, crates=None, rule="E-LIN", skip_guard_table=False):
                    "destructor of vetted guard `%s` at %s no longer calls its consumer /%s/ %s"
                    % (g, F.where(r["id"]), rx, "on every non-unwind path" if mode == "must" else ""))
     return {"bodies": nbodies, "raw_drops": nraw, "guards": len(guards_seen)}
+
+
+# ---- E-LIN.forget: manual disposal of raw edges inside the managers ------------------------------------------------------
+FORGET_FNS = {
+    # function suffix (closure numbers stripped) -> why a reference-count release accompanies every forgotten edge
+    "as oxidd_core::Manager>::try_remove_node": "consumes its edge: the reference is released whether or not the node can be removed",
+    "LevelViewSet<'id, N, ET, TM, R, MD, TERMINALS>>::gc::{closure}": "the dead node's slot is freed",
+    "LevelViewSet<'id, N, ET, TM, R, MD, TERMINALS>>::insert": "the duplicate edge's reference is released",
+    "Store<'id, N, ET, TM, R, MD, TERMINALS>>::drop_edge": "the reference is released",
+    "Store<'id, N, ET, TM, R, MD, TERMINALS>>::drop_unique_table_edge": "the reference is released and the slot freed",
+    "Edge<'id, N, ET, TAG_BITS>>::drop_inner": "the reference is released",
+}
+RELEASE = re.compile(r"::(release|free_slot|force_drop|drop_edge|from_raw|drop_with)$")
+
+
+def check_forget(ctx, F, rule="E-LIN.forget"):
+    """Inside the managers owned edges are disposed of by hand: the `Edge` value is `mem::forget`-ed (its `Drop` would
+    abort) and the node's reference count is decremented separately.  `mem::forget` hides the edge from the
+    drop-based rule above, so the pairing is checked directly: in each reviewed function every path from the entry to a
+    return that forgets an edge also passes a release (`release`, `free_slot`, `force_drop`, ...) -- an early return
+    between the two leaks one reference for good."""
+    n = 0
+    seen = set()
+    for fid, m in sorted(F.mir.items()):
+        if fid.split("::")[0] not in ("oxidd_manager_index", "oxidd_manager_pointer"):
+            continue
+        nice = re.sub(r"\{closure#\d+\}", "{closure}", F.nice(fid))
+        key = next((k for k in FORGET_FNS if nice.endswith(k)), None)
+        if key is None:
+            continue
+        B = cfg.Body(m)
+        sites = []
+        rel = []
+        for i, t in B.calls():
+            cn = cfg.callee_name(t) or ""
+            if cn.endswith("mem::forget"):
+                a = t["a"][0]
+                l = a.get("mv", a.get("cp"))
+                ty = m["locals"][l].get("ty", "") if isinstance(l, int) else ""
+                if "::Edge<" in ty:
+                    sites.append(i)
+            elif RELEASE.search(cn):
+                rel.append(i)
+        if not sites:
+            continue
+        seen.add((fid.split("::")[0], key))
+        n += 1
+        exits = B.exits()
+        bad = []
+        for s in sites:
+            if s in rel:
+                continue
+            before = any(B.dominates(r, s) for r in rel) or not _reach_avoiding(B, 0, s, rel)
+            after = not any(e in B.reachable_from(s, avoid=tuple(rel)) for e in exits)
+            if not (before or after):
+                bad.append(s)
+        ctx.ob(rule, "%s:%s" % (rule, nice), bool(rel) and not bad,
+               "%s (%s): %s" % (nice, F.where(fid),
+                                "every path that forgets an edge also releases its reference (%s)" % FORGET_FNS[key] if rel and not bad else
+                                "an owned edge is forgotten (mem::forget) on a path to the return that never releases the node's "
+                                "reference (bb%s): the reference count stays one too high and the node can never be collected" % bad))
+    ctx.floor(rule, "manager functions that dispose of edges by hand", n, 6)
+    return n
+
+
+def _reach_avoiding(B, start, goal, avoid):
+    return goal in B.reachable_from(start, avoid=tuple(a for a in avoid if a != goal))
